@@ -12,10 +12,12 @@ import (
 	"fmt"
 	"go/ast"
 	"go/parser"
+	"go/token"
 	"go/types"
 	"os"
 	"os/exec"
 	"path/filepath"
+	"regexp"
 	"sort"
 	"strconv"
 	"strings"
@@ -165,12 +167,16 @@ type inNode struct {
 	iface  map[int][]*inNode // tag leaf index -> candidate payload objects (one per candidate dynamic type)
 	ifaceT map[int][]types.Type
 	elems  map[int][]*inNode // slice arr-leaf index -> first elements
+	fake   map[int]types.Type       // tag leaf index -> modelled interface that may be a scripted fake
+	fn     map[int]*types.Signature // ref leaf index -> function value (scripted callback)
+	addr   Term                     // where the value was loaded from ("" for a parameter value)
+	onces  map[string]Term          // field path of an embedded sync.Once -> its ghost `fired`
 }
 
 const maxSliceElems = 3
 
 func (x *Exec) initHeapSel(sort string, addr Term) Term {
-	name := heapSym(sort) + "_0"
+	name := heapSym(heapKey(sort, addr)) + "_0"
 	x.d.Declare(name, "(Array Ref "+sort+")")
 	return tSel(name, addr)
 }
@@ -202,11 +208,57 @@ func (x *Exec) candidates(it types.Type) []types.Type {
 }
 
 func (x *Exec) collect(v Val, depth int) *inNode {
-	n := &inNode{T: v.T, L: v.L, ptr: map[int]*inNode{}, iface: map[int][]*inNode{}, ifaceT: map[int][]types.Type{}, elems: map[int][]*inNode{}}
+	return x.collectWith(x.initLoad, v, depth)
+}
+
+func (x *Exec) collectWith(load func(addr Term, t types.Type) Val, v Val, depth int) *inNode {
+	return x.collectAt(load, v, depth, "")
+}
+
+func isSyncOnce(t types.Type) bool {
+	n, ok := t.(*types.Named)
+	return ok && n.Obj().Name() == "Once" && n.Obj().Pkg() != nil && n.Obj().Pkg().Path() == "sync"
+}
+
+// onceGhosts finds the sync.Once values embedded in a stored struct and reads their ghost `fired`.
+func (x *Exec) onceGhosts(load func(addr Term, t types.Type) Val, t types.Type, addr Term, path []int, out map[string]Term) {
+	if isSyncOnce(t) {
+		for _, g := range x.prog.spec.Ghosts["sync.Once"] {
+			if g.Name == "fired" {
+				out[fmt.Sprint(path)] = load(extendGhost(extend(addr, path), g.Index), tyBool).L[0]
+			}
+		}
+		return
+	}
+	if st, ok := t.Underlying().(*types.Struct); ok {
+		for i := 0; i < st.NumFields(); i++ {
+			x.onceGhosts(load, st.Field(i).Type(), addr, append(append([]int(nil), path...), i), out)
+		}
+	}
+}
+
+func (x *Exec) collectAt(load func(addr Term, t types.Type) Val, v Val, depth int, at Term) *inNode {
+	n := &inNode{T: v.T, L: v.L, ptr: map[int]*inNode{}, iface: map[int][]*inNode{}, ifaceT: map[int][]types.Type{}, elems: map[int][]*inNode{},
+		fake: map[int]types.Type{}, fn: map[int]*types.Signature{}, addr: at, onces: map[string]Term{}}
+	if at != "" {
+		x.onceGhosts(load, v.T, at, nil, n.onces)
+	}
+	ls := leavesOf(v.T)
+	for i, l := range ls {
+		switch l.Kind {
+		case LkRef:
+			if sig, ok := l.T.Underlying().(*types.Signature); ok {
+				n.fn[i] = sig
+			}
+		case LkTag:
+			if x.modelled(l.T) {
+				n.fake[i] = l.T
+			}
+		}
+	}
 	if depth <= 0 {
 		return n
 	}
-	ls := leavesOf(v.T)
 	for i, l := range ls {
 		switch l.Kind {
 		case LkRef:
@@ -214,17 +266,17 @@ func (x *Exec) collect(v Val, depth int) *inNode {
 				if !supportedForReplay(pt.Elem()) {
 					continue
 				}
-				n.ptr[i] = x.collect(x.initLoad(v.L[i], pt.Elem()), depth-1)
+				n.ptr[i] = x.collectAt(load, load(v.L[i], pt.Elem()), depth-1, v.L[i])
 			}
 		case LkTag:
 			for _, c := range x.candidates(l.T) {
 				var pv Val
 				if pt, ok := c.(*types.Pointer); ok {
-					pv = x.initLoad(v.L[i+1], pt.Elem())
+					pv = load(v.L[i+1], pt.Elem())
 				} else {
-					pv = x.initLoad(v.L[i+1], c)
+					pv = load(v.L[i+1], c)
 				}
-				n.iface[i] = append(n.iface[i], x.collect(pv, depth-1))
+				n.iface[i] = append(n.iface[i], x.collectAt(load, pv, depth-1, v.L[i+1]))
 				n.ifaceT[i] = append(n.ifaceT[i], c)
 			}
 		case LkSlArr:
@@ -234,7 +286,7 @@ func (x *Exec) collect(v Val, depth int) *inNode {
 			}
 			for k := 0; k < maxSliceElems; k++ {
 				addr := extendIdx(v.L[i], fmt.Sprintf("(+ %s %d)", v.L[i+1], k))
-				n.elems[i] = append(n.elems[i], x.collect(x.initLoad(addr, st.Elem()), depth-1))
+				n.elems[i] = append(n.elems[i], x.collectWith(load, load(addr, st.Elem()), depth-1))
 			}
 		}
 	}
@@ -253,6 +305,9 @@ func supportedForReplay(t types.Type) (ok bool) {
 
 func (n *inNode) terms(out *[]Term) {
 	for _, t := range n.L {
+		*out = append(*out, t)
+	}
+	for _, t := range n.onces {
 		*out = append(*out, t)
 	}
 	for _, c := range n.ptr {
@@ -280,6 +335,12 @@ type goBuilder struct {
 	imports map[string]bool
 	n       int
 	fail    string
+	fakes   map[string]*fakeObj // by reference key of the payload / function value
+	fakeOrd []string
+	curPath []int // field path inside the node being printed
+	needOnce bool
+	unchecked []string // contract clauses of fakes that could not be turned into run-time checks
+	usedGlob  bool
 }
 
 func (b *goBuilder) qual(p *types.Package) string {
@@ -290,7 +351,12 @@ func (b *goBuilder) qual(p *types.Package) string {
 	return p.Name()
 }
 
-func (b *goBuilder) typeStr(t types.Type) string { return types.TypeString(t, b.qual) }
+var anyRe = regexp.MustCompile(`\bany\b`)
+
+// typeStr prints a type for the replay file (the module may predate go1.18: no `any`).
+func (b *goBuilder) typeStr(t types.Type) string {
+	return anyRe.ReplaceAllString(types.TypeString(t, b.qual), "interface{}")
+}
 
 func (b *goBuilder) val(t Term) *sx { return b.vals[t] }
 
@@ -316,6 +382,9 @@ func (b *goBuilder) fresh() string {
 
 // expr returns a Go expression for the value described by node n.
 func (b *goBuilder) expr(n *inNode) string {
+	saved := b.curPath
+	b.curPath = nil
+	defer func() { b.curPath = saved }()
 	return b.exprAt(n, n.T, 0, len(n.L))
 }
 
@@ -380,7 +449,18 @@ func (b *goBuilder) exprAt(n *inNode, t types.Type, lo, hi int) string {
 			f := u.Field(i)
 			w := len(leavesOf(f.Type()))
 			if f.Exported() || f.Pkg() == b.x.prog.pkg.Types {
+				b.curPath = append(b.curPath, i)
+				if isSyncOnce(f.Type()) {
+					if t, ok := n.onces[fmt.Sprint(b.curPath)]; ok && b.val(t) != nil && b.val(t).atom == "true" {
+						fs = append(fs, f.Name()+": zzFiredOnce()")
+						b.needOnce = true
+						b.curPath = b.curPath[:len(b.curPath)-1]
+						off += w
+						continue
+					}
+				}
 				e := b.exprAt(n, f.Type(), off, off+w)
+				b.curPath = b.curPath[:len(b.curPath)-1]
 				if e != "" && !isZeroLit(e) {
 					fs = append(fs, f.Name()+": "+e)
 				}
@@ -392,6 +472,13 @@ func (b *goBuilder) exprAt(n *inNode, t types.Type, lo, hi int) string {
 		tag, _ := sxInt(b.val(n.L[lo]))
 		if tag == 0 {
 			return "nil"
+		}
+		if it, isFake := b.x.prog.fakeIface[int(tag)]; isFake {
+			key, ok := b.refKey(b.val(n.L[lo+1]))
+			if !ok || key == "nil" {
+				return "(*" + fakeName(b.x.prog, it) + ")(nil)"
+			}
+			return b.fakeFor(key, it, nil).name
 		}
 		dt, ok := b.x.prog.typeByID[int(tag)]
 		if !ok {
@@ -439,7 +526,14 @@ func (b *goBuilder) exprAt(n *inNode, t types.Type, lo, hi int) string {
 			b.fail = "slice elements not collected"
 		}
 		return b.typeStr(t) + "{" + strings.Join(es, ", ") + "}"
-	case *types.Map, *types.Chan, *types.Signature:
+	case *types.Signature:
+		key, ok := b.refKey(b.val(n.L[lo]))
+		if !ok || key == "nil" {
+			return "nil"
+		}
+		fo := b.fakeFor(key, nil, u)
+		return fo.name + "_fn"
+	case *types.Map, *types.Chan:
 		return "nil"
 	}
 	b.fail = "type not supported in replay: " + t.String()
@@ -457,6 +551,10 @@ type clausePrinter struct {
 	fail   string
 	inOld  bool
 	needStrings bool
+	needReflect bool
+	usedGlob bool
+	looseEq bool // print == / != as zzEq(...) (run-time checks inside fakes)
+	fakes  bool // ghost fields of modelled interfaces / ghost globals are real state of the fakes
 }
 
 func (p *clausePrinter) print(e ast.Expr) string {
@@ -464,16 +562,35 @@ func (p *clausePrinter) print(e ast.Expr) string {
 	case *ast.ParenExpr:
 		return "(" + p.print(e.X) + ")"
 	case *ast.Ident:
+		if _, ok := p.x.prog.spec.GlobalGhosts[e.Name]; ok {
+			if !p.fakes {
+				p.fail = "ghost global " + e.Name
+			}
+			p.usedGlob = true
+			return "zzG_" + e.Name
+		}
 		return e.Name
 	case *ast.BasicLit:
 		return e.Value
 	case *ast.SelectorExpr:
+		if owner := p.ghostOwner(e.Sel.Name); owner != "" {
+			return "zzGhost_" + sanitize(owner) + "(" + p.print(e.X) + ").g_" + e.Sel.Name
+		}
 		return p.print(e.X) + "." + e.Sel.Name
 	case *ast.StarExpr:
 		return "(*" + p.print(e.X) + ")"
 	case *ast.UnaryExpr:
 		return "(" + e.Op.String() + p.print(e.X) + ")"
 	case *ast.BinaryExpr:
+		if p.looseEq && (e.Op == token.EQL || e.Op == token.NEQ) {
+			// contract equality (slices by position, typed nils, mixed integer types) through reflection
+			p.needReflect = true
+			neg := ""
+			if e.Op == token.NEQ {
+				neg = "!"
+			}
+			return "(" + neg + "zzEq(" + p.print(e.X) + ", " + p.print(e.Y) + "))"
+		}
 		return "(" + p.print(e.X) + " " + e.Op.String() + " " + p.print(e.Y) + ")"
 	case *ast.CompositeLit:
 		var els []string
@@ -519,6 +636,17 @@ func (p *clausePrinter) print(e ast.Expr) string {
 			return "func() bool { _, ok := " + p.print(e.Args[0]) + ".(" + exprString(e.Args[1]) + "); return ok }()"
 		case "len":
 			return "len(" + p.print(e.Args[0]) + ")"
+		case "payloadnil":
+			p.needReflect = true
+			return "func(v interface{}) bool { rv := reflect.ValueOf(v); return v != nil && rv.Kind() == reflect.Ptr && rv.IsNil() }(" + p.print(e.Args[0]) + ")"
+		case "inset":
+			if c, ok := e.Args[0].(*ast.CallExpr); ok {
+				if id, ok := c.Fun.(*ast.Ident); ok && id.Name == "elems" && len(c.Args) == 1 {
+					return "func() bool { for _, zzE := range " + p.print(c.Args[0]) + " { if zzE == " + p.print(e.Args[1]) + " { return true } }; return false }()"
+				}
+			}
+			p.fail = "cannot print inset over an abstract set"
+			return "true"
 		case "strcontains":
 			p.needStrings = true
 			return "strings.Contains(string(" + p.print(e.Args[0]) + "), string(" + p.print(e.Args[1]) + "))"
@@ -544,6 +672,38 @@ func (p *clausePrinter) print(e ast.Expr) string {
 	}
 	p.fail = fmt.Sprintf("cannot print %T", e)
 	return "true"
+}
+
+// ghostOwner: the modelled interface that declares a ghost field of this name
+// (only when exactly one does and no printable struct field could be meant).
+func (p *clausePrinter) ghostOwner(name string) string {
+	owner := ""
+	for o, gs := range p.x.prog.spec.Ghosts {
+		t := p.x.prog.lookupType(o)
+		if t == nil {
+			if strings.Contains(o, ".") {
+				func() {
+					defer func() { recover() }()
+					t = p.x.parseType(o)
+				}()
+			}
+		}
+		if t == nil || !isInterface(t) {
+			continue
+		}
+		for _, g := range gs {
+			if g.Name == name {
+				if owner != "" && owner != o {
+					return ""
+				}
+				owner = o
+			}
+		}
+	}
+	if owner != "" && !p.fakes {
+		p.fail = "ghost field " + name + " without a fake"
+	}
+	return owner
 }
 
 func (p *clausePrinter) specFnLit(sf *SpecFn) string {
@@ -604,33 +764,155 @@ func (r *Report) tryReplay(o *Obligation, dir string, log *strings.Builder) (str
 		fmt.Fprintf(log, "replay: %s is a closure; no direct call possible\n", x.fname)
 		return "", false
 	}
-	// 1. collect input terms and ask the winning solver for their values
+	// scratch state: loads from recorded snapshots may add (valid) frame axioms
+	rs := &State{x: x, heaps: map[string]*heapNode{}, alloc: "alloc_0", asms: append([]Term(nil), o.Asms...), instd: map[string]bool{},
+		closures: map[string]*closureInfo{}, held: map[string]bool{}, heldW: map[string]bool{}, ghostInt: map[string]Term{}}
+	if o.snap != nil {
+		for k, v := range o.snap.heaps {
+			rs.heaps[k] = v
+		}
+		rs.alloc = o.snap.alloc
+	}
+	// 1. collect input terms, the calls into fakes on this path, and the ghost state they carry
 	var nodes []*inNode
-	var terms []Term
+	var plans []*evPlan
+	var allNodes []*inNode
+	type ghost0 struct {
+		tag, payload Term
+		it           types.Type
+		reads        []ghostRead
+	}
+	var ghost0s []ghost0
+	var glob0 []ghostRead
+	var globNames []string
+	for n := range x.prog.spec.GlobalGhosts {
+		globNames = append(globNames, n)
+	}
+	sort.Strings(globNames)
 	func() {
 		defer func() {
 			if rec := recover(); rec != nil {
+				fmt.Fprintf(log, "replay: collecting inputs failed: %v\n", rec)
 				nodes = nil
 			}
 		}()
 		for _, p := range x.replay.Params {
 			n := x.collect(p.Val, 3)
 			nodes = append(nodes, n)
-			n.terms(&terms)
+			allNodes = append(allNodes, n)
+		}
+		// initial ghost state of every interface value in the inputs that may be a fake
+		var walk func(n *inNode)
+		seen := map[*inNode]bool{}
+		walk = func(n *inNode) {
+			if n == nil || seen[n] {
+				return
+			}
+			seen[n] = true
+			for i, it := range n.fake {
+				g := ghost0{tag: n.L[i], payload: n.L[i+1], it: it}
+				for _, gf := range x.ghostFieldsOf(it) {
+					v, ok := x.evalIn(rs, x.entry, "zzr."+gf.Name, map[string]Val{"zzr": {T: it, L: []Term{n.L[i], n.L[i+1]}}})
+					if ok && simpleGhostType(v.T) {
+						gn := x.collectWith(func(a Term, t types.Type) Val { return rs.loadValIn(x.entry, a, t) }, v, 2)
+						g.reads = append(g.reads, ghostRead{field: gf, node: gn})
+						allNodes = append(allNodes, gn)
+					}
+				}
+				ghost0s = append(ghost0s, g)
+			}
+			for _, c := range n.ptr {
+				walk(c)
+			}
+			for _, cs := range n.iface {
+				for _, c := range cs {
+					walk(c)
+				}
+			}
+			for _, cs := range n.elems {
+				for _, c := range cs {
+					walk(c)
+				}
+			}
+		}
+		for _, n := range nodes {
+			walk(n)
+		}
+		for _, gname := range globNames {
+			gf := x.prog.spec.GlobalGhosts[gname]
+			if v, ok := x.evalIn(rs, x.entry, gname, nil); ok && simpleGhostType(v.T) {
+				gn := x.collectWith(func(a Term, t types.Type) Val { return rs.loadValIn(x.entry, a, t) }, v, 2)
+				glob0 = append(glob0, ghostRead{field: gf, node: gn})
+				allNodes = append(allNodes, gn)
+			}
+		}
+		for _, ev := range eventsOldestFirst(o.events) {
+			ev := ev
+			pl := &evPlan{ev: ev, recvT: ev.recv.L}
+			load := func(a Term, t types.Type) Val { return rs.loadValIn(ev.post, a, t) }
+			for i := 0; i < ev.sig.Results().Len(); i++ {
+				lo, hi := tupleRange(ev.sig.Results(), i)
+				rn := x.collectWith(load, Val{T: ev.sig.Results().At(i).Type(), L: ev.res.L[lo:hi]}, 2)
+				pl.res = append(pl.res, rn)
+				allNodes = append(allNodes, rn)
+			}
+			if ev.kind == "method" && isInterface(ev.recv.T) {
+				for _, gf := range x.ghostFieldsOf(ev.recv.T) {
+					v, ok := x.evalIn(rs, ev.post, "zzr."+gf.Name, map[string]Val{"zzr": ev.recv})
+					if ok && simpleGhostType(v.T) {
+						gn := x.collectWith(load, v, 2)
+						pl.ghosts = append(pl.ghosts, ghostRead{field: gf, node: gn})
+						allNodes = append(allNodes, gn)
+					}
+				}
+			}
+			for _, gname := range globNames {
+				gf := x.prog.spec.GlobalGhosts[gname]
+				if v, ok := x.evalIn(rs, ev.post, gname, nil); ok && simpleGhostType(v.T) {
+					gn := x.collectWith(load, v, 2)
+					pl.globs = append(pl.globs, ghostRead{field: gf, node: gn})
+					allNodes = append(allNodes, gn)
+				}
+			}
+			plans = append(plans, pl)
 		}
 	}()
 	if nodes == nil {
 		fmt.Fprintf(log, "replay: inputs of %s cannot be reconstructed\n", x.fname)
 		return "", false
 	}
+	var terms []Term
+	for _, n := range allNodes {
+		n.terms(&terms)
+	}
+	for _, pl := range plans {
+		terms = append(terms, pl.recvT...)
+	}
 	// restrict interface tags of the inputs to realisable dynamic types
-	asms := append([]Term(nil), o.Asms...)
+	asms := append([]Term(nil), rs.asms...)
 	var restrict func(n *inNode)
+	rseen := map[*inNode]bool{}
 	restrict = func(n *inNode) {
-		for i, cs := range n.ifaceT {
+		if n == nil || rseen[n] {
+			return
+		}
+		rseen[n] = true
+		for i := range leavesOf(n.T) {
+			if leavesOf(n.T)[i].Kind != LkTag {
+				continue
+			}
 			alts := []Term{tEq(n.L[i], "0")}
-			for _, c := range cs {
-				alts = append(alts, tEq(n.L[i], tInt(int64(x.prog.typeID(c)))))
+			if it, ok := n.fake[i]; ok {
+				// a value of a modelled interface is replayed by a scripted fake: the path was
+				// explored against the interface contract, not against a particular implementation
+				alts = append(alts, tEq(n.L[i], tInt(int64(x.prog.fakeTag(it)))))
+			} else {
+				for _, c := range n.ifaceT[i] {
+					alts = append(alts, tEq(n.L[i], tInt(int64(x.prog.typeID(c)))))
+				}
+			}
+			if len(n.ifaceT[i]) == 0 && n.fake[i] == nil {
+				continue // nothing known about the implementations: leave it to the model
 			}
 			asms = append(asms, tOr(alts...))
 		}
@@ -651,15 +933,15 @@ func (r *Report) tryReplay(o *Obligation, dir string, log *strings.Builder) (str
 			}
 		}
 	}
-	for _, n := range nodes {
+	for _, n := range allNodes {
 		restrict(n)
 	}
 	// deduplicate terms
-	seen := map[string]bool{}
+	seenT := map[string]bool{}
 	var uniq []Term
 	for _, t := range terms {
-		if !seen[t] {
-			seen[t] = true
+		if !seenT[t] {
+			seenT[t] = true
 			uniq = append(uniq, t)
 		}
 	}
@@ -700,12 +982,68 @@ func (r *Report) tryReplay(o *Obligation, dir string, log *strings.Builder) (str
 		b.stmts = append(b.stmts, "_ = "+name)
 		argNames = append(argNames, name)
 	}
+	// 1b. the scripts of the fakes
+	var ghostInit []string
+	for _, g := range ghost0s {
+		tag, _ := sxInt(b.val(g.tag))
+		if _, isFake := x.prog.fakeIface[int(tag)]; !isFake {
+			continue
+		}
+		key, ok := b.refKey(b.val(g.payload))
+		if !ok || key == "nil" {
+			continue
+		}
+		fo := b.fakeFor(key, g.it, nil)
+		for _, gr := range g.reads {
+			ghostInit = append(ghostInit, fmt.Sprintf("%s.g_%s = %s", fo.name, gr.field.Name, b.expr(gr.node)))
+		}
+	}
+	var globInit []string
+	for _, gr := range glob0 {
+		globInit = append(globInit, fmt.Sprintf("zzG_%s = %s", gr.field.Name, b.expr(gr.node)))
+	}
+	for _, pl := range plans {
+		var fo *fakeObj
+		mname := "call"
+		if pl.ev.kind == "method" {
+			tag, _ := sxInt(b.val(pl.recvT[0]))
+			it, isFake := x.prog.fakeIface[int(tag)]
+			if !isFake {
+				continue
+			}
+			key, ok := b.refKey(b.val(pl.recvT[1]))
+			if !ok || key == "nil" {
+				continue
+			}
+			fo = b.fakeFor(key, it, nil)
+			mname = pl.ev.key[strings.LastIndex(pl.ev.key, ".")+1:]
+		} else {
+			key, ok := b.refKey(b.val(pl.recvT[0]))
+			if !ok || key == "nil" {
+				continue
+			}
+			fo = b.fakeFor(key, nil, pl.ev.sig)
+		}
+		var rs2 []string
+		for _, rn := range pl.res {
+			rs2 = append(rs2, b.typeStr(rn.T)+"("+b.expr(rn)+")")
+		}
+		var after []string
+		for _, gr := range pl.ghosts {
+			after = append(after, fmt.Sprintf("%s.g_%s = %s", fo.name, gr.field.Name, b.expr(gr.node)))
+		}
+		for _, gr := range pl.globs {
+			after = append(after, fmt.Sprintf("zzGLOB zzG_%s = %s", gr.field.Name, b.expr(gr.node)))
+		}
+		fo.script = append(fo.script, fmt.Sprintf("{m: %q, res: []interface{}{%s}, after: func() { %s }}", mname, strings.Join(rs2, ", "), strings.Join(after, "; ")))
+		_ = globInit
+	}
 	if b.fail != "" {
 		fmt.Fprintf(log, "replay: %s\n", b.fail)
 		return "", false
 	}
 	// 2. the check
-	cp := &clausePrinter{x: x}
+	cp := &clausePrinter{x: x, fakes: len(b.fakes) > 0 || len(globNames) > 0}
 	check := ""
 	safety := o.Kind != "post"
 	isLemma := x.spec.Kind == "lemma"
@@ -728,7 +1066,7 @@ func (r *Report) tryReplay(o *Obligation, dir string, log *strings.Builder) (str
 			if c.Label != "" {
 				d = c.Label
 			}
-			if d == o.Detail {
+			if d == o.Detail || strings.HasPrefix(o.Detail, d+".") {
 				cl = c
 			}
 		}
@@ -740,6 +1078,9 @@ func (r *Report) tryReplay(o *Obligation, dir string, log *strings.Builder) (str
 			fmt.Fprintf(log, "replay: %s\n", cp.fail)
 			return "", false
 		}
+	} else if !isSafetyKind(o.Kind) {
+		fmt.Fprintf(log, "replay: an obligation of kind %q is inside the function and cannot be observed from a call\n", o.Kind)
+		return "", false
 	}
 	// 3. the call
 	sig := fn.Signature
@@ -764,6 +1105,36 @@ func (r *Report) tryReplay(o *Obligation, dir string, log *strings.Builder) (str
 	if cp.needStrings {
 		b.imports["strings"] = true
 	}
+	if cp.needReflect {
+		b.imports["reflect"] = true
+	}
+	// the fake types mention the parameter types of the interfaces' methods
+	fakeDecls := b.fakeTypeDecls()
+	if len(b.fakes) > 0 {
+		b.imports["reflect"] = true // zzEq
+	}
+	var fnDecls []string
+	for _, k := range b.fakeOrd {
+		fo := b.fakes[k]
+		if fo.sig == nil {
+			continue
+		}
+		var ps, rsT, outs []string
+		for i := 0; i < fo.sig.Params().Len(); i++ {
+			ps = append(ps, fmt.Sprintf("a%d %s", i, b.typeStr(fo.sig.Params().At(i).Type())))
+		}
+		body := fmt.Sprintf("r := %s.next(\"call\"); _ = r; ", fo.name)
+		for i := 0; i < fo.sig.Results().Len(); i++ {
+			t := b.typeStr(fo.sig.Results().At(i).Type())
+			rsT = append(rsT, t)
+			body += fmt.Sprintf("r%d, _ := r[%d].(%s); ", i, i, t)
+			outs = append(outs, fmt.Sprintf("r%d", i))
+		}
+		if len(outs) > 0 {
+			body += "return " + strings.Join(outs, ", ")
+		}
+		fnDecls = append(fnDecls, fmt.Sprintf("%s := &zzScript{who: %q}\n\t%s_fn := func(%s) (%s) { %s }\n\t_ = %s_fn", fo.name, "callback "+fo.name, fo.name, strings.Join(ps, ", "), strings.Join(rsT, ", "), body, fo.name))
+	}
 	var imps []string
 	for p := range b.imports {
 		imps = append(imps, p)
@@ -772,14 +1143,72 @@ func (r *Report) tryReplay(o *Obligation, dir string, log *strings.Builder) (str
 	for _, p := range imps {
 		fmt.Fprintf(&src, "\t%q\n", p)
 	}
-	fmt.Fprintf(&src, ")\n\nfunc %s(zzT *testing.T) {\n", testName)
+	fmt.Fprintf(&src, ")\n")
+	if len(b.fakes) > 0 {
+		src.WriteString(fakeRuntime)
+		src.WriteString(fakeDecls)
+	}
+	if b.needOnce {
+		src.WriteString("\n// a sync.Once that has already fired (the contracts' ghost field `fired`)\nfunc zzFiredOnce() (o sync.Once) {\n\to.Do(func() {})\n\treturn\n}\n")
+	}
+	for _, gname := range globNames {
+		if !cp.usedGlob && !b.usedGlob {
+			break
+		}
+		gf := x.prog.spec.GlobalGhosts[gname]
+		func() {
+			defer func() { recover() }()
+			if t := x.parseType(gf.Type); simpleGhostType(t) {
+				fmt.Fprintf(&src, "var zzG_%s %s\n", gname, b.typeStr(t))
+			}
+		}()
+	}
+	fmt.Fprintf(&src, "\nfunc %s(zzT *testing.T) {\n", testName)
+	for _, k := range b.fakeOrd {
+		fo := b.fakes[k]
+		if fo.iface != nil {
+			fmt.Fprintf(&src, "\t%s := &%s{}\n\t%s.s.who = %q\n", fo.name, fakeName(x.prog, fo.iface), fo.name, fo.name+" ("+typeRelName(x.prog, fo.iface)+")")
+		}
+	}
+	for _, d := range fnDecls {
+		fmt.Fprintf(&src, "\t%s\n", d)
+	}
 	for _, s := range b.stmts {
 		fmt.Fprintf(&src, "\t%s\n", s)
+	}
+	for _, k := range b.fakeOrd {
+		fo := b.fakes[k]
+		target := fo.name + ".s.evs"
+		if fo.iface == nil {
+			target = fo.name + ".evs"
+		}
+		fmt.Fprintf(&src, "\t%s = []zzEv{\n", target)
+		for _, e := range fo.script {
+			if cp.usedGlob || b.usedGlob {
+				e = strings.ReplaceAll(e, "zzGLOB ", "")
+			} else {
+				e = stripGlob(e)
+			}
+			fmt.Fprintf(&src, "\t\t%s,\n", e)
+		}
+		fmt.Fprintf(&src, "\t}\n")
+	}
+	for _, s := range ghostInit {
+		fmt.Fprintf(&src, "\t%s\n", s)
+	}
+	if cp.usedGlob || b.usedGlob {
+		for _, s := range globInit {
+			fmt.Fprintf(&src, "\t%s\n", s)
+		}
 	}
 	for _, s := range cp.olds {
 		fmt.Fprintf(&src, "\t%s\n", s)
 	}
-	fmt.Fprintf(&src, "\tdefer func() {\n\t\tif zzR := recover(); zzR != nil {\n\t\t\tzzT.Fatalf(\"REPLAY-VIOLATION obligation %s: panic: %%v\", zzR)\n\t\t}\n\t}()\n", o.Name)
+	fmt.Fprintf(&src, "\tdefer func() {\n\t\tif zzR := recover(); zzR != nil {\n")
+	if len(b.fakes) > 0 {
+		fmt.Fprintf(&src, "\t\t\tif d, ok := zzR.(zzDivergence); ok {\n\t\t\t\tzzT.Skipf(\"REPLAY-DIVERGED: %%s\", d.msg)\n\t\t\t}\n")
+	}
+	fmt.Fprintf(&src, "\t\t\tzzT.Fatalf(\"REPLAY-VIOLATION obligation %s: panic: %%v\", zzR)\n\t\t}\n\t}()\n", o.Name)
 	if len(resNames) > 0 {
 		fmt.Fprintf(&src, "\t%s := %s\n", strings.Join(resNames, ", "), call)
 		for _, n := range resNames {
@@ -804,13 +1233,53 @@ func (r *Report) tryReplay(o *Obligation, dir string, log *strings.Builder) (str
 	os.WriteFile(gopath, src.Bytes(), 0o644)
 	out, failed := runReplayTest(r.rc.repo, gopath, testName, dir, isLemma)
 	fmt.Fprintf(log, "replay test: %s\nreplay output:\n%s\n", gopath, indent(strings.TrimSpace(out), "  "))
+	if len(b.unchecked) > 0 {
+		fmt.Fprintf(log, "replay: contract clauses of the scripted fakes that are NOT checked at run time (the model values are taken on trust):\n")
+		seenU := map[string]bool{}
+		for _, u := range b.unchecked {
+			if !seenU[u] {
+				seenU[u] = true
+				fmt.Fprintf(log, "  %s\n", u)
+			}
+		}
+	}
+	if strings.Contains(o.Trace, "loop") || strings.Contains(o.Trace, "it:") {
+		fmt.Fprintf(log, "replay: the path crosses a loop head; the script covers the calls of one arbitrary iteration\n")
+	}
 	reproduced := failed && strings.Contains(out, "REPLAY-VIOLATION")
 	if reproduced {
 		fmt.Fprintf(log, "replay: REPRODUCED on the real code\n")
+	} else if strings.Contains(out, "REPLAY-DIVERGED") {
+		fmt.Fprintf(log, "replay: the real execution took a different sequence of calls than the model (not reproduced)\n")
 	} else {
 		fmt.Fprintf(log, "replay: not reproduced\n")
 	}
 	return gopath, reproduced
+}
+
+// stripGlob removes the ghost-global updates (marked zzGLOB) from a script entry.
+func stripGlob(e string) string {
+	i := strings.Index(e, "after: func() { ")
+	if i < 0 {
+		return e
+	}
+	head, body := e[:i+len("after: func() { ")], e[i+len("after: func() { "):]
+	body = strings.TrimSuffix(body, " }}")
+	var keep []string
+	for _, st := range strings.Split(body, "; ") {
+		if !strings.HasPrefix(st, "zzGLOB ") && st != "" {
+			keep = append(keep, st)
+		}
+	}
+	return head + strings.Join(keep, "; ") + " }}"
+}
+
+func isSafetyKind(k string) bool {
+	switch k {
+	case "nilderef", "index", "slicebounds", "typeassert", "nilmap", "nilinvoke", "nilcall", "divzero", "panic", "callnopanic", "closenil", "closeclosed":
+		return true
+	}
+	return false
 }
 
 func runReplayTest(repo, gofile, testName, dir string, withTag bool) (string, bool) {
@@ -820,7 +1289,7 @@ func runReplayTest(repo, gofile, testName, dir string, withTag bool) (string, bo
 	os.WriteFile(ovpath, ovb, 0o644)
 	ctx, cancel := context.WithTimeout(context.Background(), 180*time.Second)
 	defer cancel()
-	args := []string{"test", "-overlay", ovpath, "-vet=off", "-count=1", "-timeout", "60s", "-run", "^" + testName + "$"}
+	args := []string{"test", "-overlay", ovpath, "-vet=off", "-count=1", "-timeout", "60s", "-v", "-run", "^" + testName + "$"}
 	if withTag {
 		args = append(args, "-tags=verif") // lemma functions live in the guarded contract file
 	}
